@@ -206,7 +206,7 @@ func Supervise(self string, chk *Check, tier string, seed int64) int {
 				} else {
 					cs, _ = json.Marshal(map[string]any{"idx": m.Idx})
 				}
-				v := Violation{Property: chk.ID, Sig: crashSig(stderr), Space: m.Space, Case: cs, Human: fmt.Sprintf("%s case %s", m.Space, string(cs)), Observed: "process terminated:\n" + stderr, Allowed: "every call returns", Crash: true}
+				v := Violation{Property: chk.ID, Sig: crashSig(stderr), Space: m.Space, Case: cs, Human: fmt.Sprintf("%s case %s", m.Space, string(cs)), Observed: "process terminated:\n" + stderr, Allowed: "every call returns", Crash: true, Tier: tier}
 				file := writeReplay(&v, 0)
 				rep, crashed := replayInFresh(self, file)
 				if rep && crashed {
